@@ -413,6 +413,8 @@ class Generator(ABC):
 
     def clean(self):
         """purge all content from source and header output directories"""
+        if not self.config:
+            raise ConfigurationException(f"Missing configuration for 'generator.{self.key}'!")
         shutil.rmtree(self.header_path, ignore_errors=True)
         shutil.rmtree(self.source_path, ignore_errors=True)
 
